@@ -209,6 +209,14 @@ def _anysym(a, kw):
     return False
 
 
+_AWARE = ("behave", "cucumber_tag_expressions", "props", "vlib", "symx", "__main__")
+
+
+def _proxy_aware(fn):
+    mod = getattr(fn, "__module__", "") or ""
+    return mod.split(".")[0] in _AWARE
+
+
 def sx_call(f, *a, **kw):
     if a and isinstance(a[0], core.CondTag):
         import fnmatch
@@ -221,11 +229,12 @@ def sx_call(f, *a, **kw):
         if isinstance(f, types.BuiltinMethodType) and isinstance(getattr(f, "__self__", None), SymChoice):
             return f(*a, **kw)
         return f(*a, **kw)
-    # python-level function from an instrumented module, or a bound method of a proxy: call through
-    if isinstance(f, types.FunctionType):
+    # python-level function from an instrumented (or harness) module, or a bound method of a proxy:
+    # call through; python functions of other modules (re.match, fnmatch, ...) are lifted pointwise
+    if isinstance(f, types.FunctionType) and _proxy_aware(f):
         return f(*a, **kw)
     if isinstance(f, types.MethodType):
-        if isinstance(f.__self__, SymChoice) or isinstance(f.__func__, types.FunctionType):
+        if isinstance(f.__self__, SymChoice) or (isinstance(f.__func__, types.FunctionType) and _proxy_aware(f.__func__)):
             return f(*a, **kw)
     if isinstance(f, type):
         mod = getattr(f, "__module__", "") or ""
